@@ -266,6 +266,103 @@ def database_ordered(fn: ast.FunctionDef, it):
     return None, 'unrecognised source expression'
 
 
+def step_tokens(ctx, py: PyRepo, fn):
+    """a compressed step is `Z` or a number written as ANY number of high digits (U-Y) followed by one final digit (A-T).  When the
+    proof string is cut into steps by a regular expression, the expression is read (re's own parser) and the high-digit part must be
+    an unbounded repetition of exactly the high-digit letters, the final part exactly the low-digit letters; the loop form
+    (accumulate letters until a final digit) has no such bound by construction."""
+    try:
+        import re._parser as sre_parse          # Python >= 3.11
+    except ImportError:                          # pragma: no cover
+        import sre_parse
+    n = 0
+    for call in [c for c in ast.walk(fn) if isinstance(c, ast.Call) and isinstance(c.func, ast.Attribute) and isinstance(c.func.value, ast.Name)
+                 and c.func.value.id == 're' and c.func.attr in ('findall', 'finditer', 'split', 'match', 'fullmatch', 'compile')]:
+        if not (call.args and isinstance(call.args[0], ast.Constant) and isinstance(call.args[0].value, str)):
+            continue
+        pat = call.args[0].value
+        if not re.search(r'[A-Y]', pat):
+            continue
+        n += 1
+        try:
+            tree = sre_parse.parse(pat)
+        except Exception as ex:  # noqa: BLE001
+            ctx.ob('step-tokens', f're@{call.lineno - fn.lineno}', False, f'the step expression {pat!r} does not parse: {ex}',
+                   py.where('metamath.converter.converter', call))
+            continue
+
+        def letters(item):
+            op, av = item
+            if str(op) == 'IN':
+                out = set()
+                for o, a in av:
+                    if str(o) == 'RANGE':
+                        out |= {chr(x) for x in range(a[0], a[1] + 1)}
+                    elif str(o) == 'LITERAL':
+                        out.add(chr(a))
+                    else:
+                        return None
+                return out
+            if str(op) == 'LITERAL':
+                return {chr(av)}
+            return None
+
+        def number_alt(seq):
+            """-> problem text or None for one alternative that spells a number"""
+            items = list(seq)
+            if len(items) == 1 and letters(items[0]) == {'Z'}:
+                return None
+            if not items:
+                return 'empty alternative'
+            low = letters(items[-1])
+            if low != set('ABCDEFGHIJKLMNOPQRST'):
+                return f'the final digit class is {sorted(low) if low else items[-1]}, not A-T'
+            highs = items[:-1]
+            if not highs:
+                return 'no high-digit part: numbers above 20 cannot be read'
+            if len(highs) != 1 or str(highs[0][0]) not in ('MAX_REPEAT', 'MIN_REPEAT'):
+                return 'the high-digit part is not one repetition'
+            lo, hi, sub = highs[0][1]
+            cls = letters(list(sub)[0]) if len(list(sub)) == 1 else None
+            if cls != set('UVWXY'):
+                return f'the high-digit class is {sorted(cls) if cls else "?"}, not U-Y'
+            if lo != 0 or str(hi) != 'MAXREPEAT':
+                return (f'the high digits are repeated {{{lo},{hi}}} times: a number with more high digits is cut (findall skips what it '
+                        f'cannot match), so every step number above {20 * sum(5 ** i * 5 for i in range(int(hi))) + 20 if str(hi).isdigit() else "the bound"} decodes to a smaller one')
+            return None
+
+        top = list(tree)
+        alts = [top]
+        if len(top) == 1 and str(top[0][0]) == 'BRANCH':
+            alts = [list(a) for a in top[0][1][1]]
+        probs = [p_ for p_ in (number_alt(a) for a in alts) if p_]
+        ctx.ob('step-tokens', f're@{call.lineno - fn.lineno}', not probs,
+               f'steps are cut out of the proof with {pat!r}: ' + '; '.join(probs), py.where('metamath.converter.converter', call))
+    ctx.ob('step-tokens', 'scan', True, f'{n} regular expressions over proof letters examined', '')
+
+
+def identity_by_hash(ctx, py: PyRepo):
+    """which hypotheses are mandatory is decided from the variables of the statement (Term.get_metavariables); terms are told
+    apart structurally.  `hash(term)` as an identity (visited sets, memo keys) merges distinct terms - Application.__hash__ is an XOR
+    of its parts, so e.g. `( f x x )` hashes alike for every x - and the variables of a merged term are lost."""
+    n = 0
+    for mname in ('metamath.ast', 'metamath.converter.converter'):
+        mi = py.modules.get(mname)
+        if mi is None:
+            continue
+        for c in list(mi.classes.values()):
+            for fname, f in c.methods.items():
+                if fname == '__hash__':
+                    continue
+                for node in ast.walk(f):
+                    if isinstance(node, ast.Call) and isinstance(node.func, ast.Name) and node.func.id in ('hash', 'id'):
+                        n += 1
+                        ctx.ob('identity-by-hash', f'{c.name}.{fname}', False,
+                               f'{c.name}.{fname} uses `{ast.unparse(node)[:50]}` as the identity of a term: two different terms can have the '
+                               f'same hash, and what is skipped as "already seen" (its variables, its conversion) is lost', py.where(mname, node))
+    ctx.ob('identity-by-hash', 'scan', True, f'{n} uses outside __hash__', '')
+
+
 def label_tokens(ctx, py: PyRepo, fn):
     """labels are registered under consecutive numbers; an empty token registered as a label shifts every number after it.
     `text.split(sep)` with an explicit separator yields [''] for empty text (and '' between doubled separators) - unlike
@@ -308,6 +405,8 @@ def run(ctx):
     ctx.ob('hypothesis-order', 'ordered-source-is-a-list', ann_ok,
            f'self.{ORDERED_ATTR} must be a list (insertion = database order)', py.where('metamath.converter.converter', init))
     label_tokens(ctx, py, fn)
+    step_tokens(ctx, py, fn)
+    identity_by_hash(ctx, py)
     # where the numbers past the label list are resolved: the k-th Z opens the k-th slot, number n reloads slot n - len(labels) - 1
     from .c16 import memory_map_standalone
     memory_map_standalone(ctx, py)
